@@ -351,7 +351,7 @@ class HConc(HBase):
 
     def prove_eq(self, name, lhs, rhs, scale=None, **kw):
         l, r = complex(lhs), complex(rhs)
-        sc = max(1.0, abs(l), abs(r), float(scale or 0))
+        sc = max(float(scale) if scale else 1.0, abs(l), abs(r))  # `scale` replaces the absolute floor of 1
         err = abs(l - r)
         ok = bool(err <= self.tol * sc) and not (math.isnan(err))
         if not ok and ((l != l and r != r) or l == r):
@@ -903,13 +903,13 @@ def run_harness(harness, tier="quick", seed=0, replay=None, verbose=True):
             if v2 is not None:
                 vals = v2
         ok, info = replay_obligation(harness, r, o, vals, seed)
-        if not ok and (o.kind == "eq" or o.pairs) and o.result.model is not None and n_margin_retries < 40:
+        if not ok and (o.kind == "eq" or o.pairs) and o.result.model is not None and n_margin_retries < 8:
             # the model may violate the claim only infinitesimally: ask again with a margin
             for margin in (1e-3, 1e-6):
                 n_margin_retries += 1
                 q, _ = obligation_query(o, cache, margin=margin)
                 b2 = smt.Batch(pid + "-m")
-                b2.add(q, timeout_s=o.timeout)
+                b2.add(q, timeout_s=min(o.timeout, 30))
                 res2 = b2.solve()[0]
                 b2.cleanup()
                 if res2.status == "sat":
